@@ -37,9 +37,10 @@ macro_rules! driver {
                 queue.borrow_mut().push_back(c_end);
                 let t0 = Instant::now();
                 if stall && conns == 1 {
-                    let r = el.poll().await;
+                    // bounded (virtual time): a client that never gives up is recorded as such instead of hanging the harness
+                    let r = tokio::time::timeout(Duration::from_secs(4 * CONN_TIMEOUT), el.poll()).await;
                     let elapsed = (Instant::now() - t0).as_millis() as u64;
-                    let err = match r { Ok(_) => "none".to_string(), Err(e) => format!("{e:?}").split(|c: char| !c.is_alphanumeric()).next().unwrap_or("").to_string() };
+                    let err = match r { Err(_) => "StillWaiting".to_string(), Ok(Ok(_)) => "none".to_string(), Ok(Err(e)) => format!("{e:?}").split(|c: char| !c.is_alphanumeric()).next().unwrap_or("").to_string() };
                     out.push(json!({"ev": "stalled", "elapsed_ms": elapsed, "elapsed": elapsed / 1000, "exact": elapsed % 1000 == 0, "err": err}));
                     return;
                 }
